@@ -152,11 +152,32 @@ func regErrKind(err error) string {
 
 func upcastDomain(lines []string) []string {
 	store := &oneEventStore{}
-	bus := eb.New(eb.WithStore(store))
 	var out []string
 	var calls, errCalls [][2]string
 	var pendingClears []chan struct{}
+	// leading "optreg src dst ret fails tag" lines: upcasters given to New as WithUpcast options, in order
+	opts := []eb.Option{eb.WithStore(store)}
+	nopt := 0
 	for _, line := range lines {
+		f := strings.Fields(line)
+		if f[0] != "optreg" || len(f) != 6 {
+			break
+		}
+		nopt++
+		src, dst, ret, fails, tag := atoi(f[1]), atoi(f[2]), atoi(f[3]), f[4] == "1", atoi(f[5])
+		opts = append(opts, eb.WithUpcast(tyName(src), tyName(dst), func(data json.RawMessage) (json.RawMessage, string, error) {
+			var pl payload
+			_ = json.Unmarshal(data, &pl)
+			calls = append(calls, [2]string{fmt.Sprint(tag), showNatList(pl.Tags)})
+			if fails {
+				return nil, "", errors.New("boom")
+			}
+			return listToData(append(append([]int{}, pl.Tags...), tag), pl.Opt), tyName(ret), nil
+		}))
+		out = append(out, "optreg")
+	}
+	bus := eb.New(opts...)
+	for _, line := range lines[nopt:] {
 		f := strings.Fields(line)
 		switch {
 		case f[0] == "errh" && len(f) == 2:
@@ -174,7 +195,7 @@ func upcastDomain(lines []string) []string {
 			if isNil {
 				err = eb.RegisterUpcastFunc(bus, tyName(src), tyName(dst), nil)
 			} else if e, ok := func() (error, bool) {
-				if src >= 100 && dst >= 100 && ret == dst && !fails {
+				if src >= 100 && dst >= 100 && ret == dst && !fails && tag < 200 { // (tag >= 200: the raw upcaster that races a clear)
 					return typedRegister(bus, src-100, dst-100, tag, &calls)
 				}
 				return nil, false
